@@ -34,7 +34,7 @@ SYMS = list(cat.SYMS)
 
 def cases(tier, seed):
     out = []
-    reps = 3 if tier == 'quick' else 10
+    reps = 3 if tier == 'quick' else 60
     for tpl in TEMPLATES:
         fac = {'sym': SYMS, 'dtype': ['real', 'complex'], 'drop': ['none', 'some'], 'overlap': ['equal', 'subset', 'overlap']}
         if tpl == 'unroll':
